@@ -4,7 +4,7 @@
    [cmac], [sha], [E]/[D], base64 are arbitrary functions, constrained only by the
    hypotheses written in each statement. *)
 From Coq Require Import List ZArith Bool Lia.
-From GZ Require Import C18.Model C18.Proofs C18.ProofsCrypt C18.Server C18.ProofsServer.
+From GZ Require Import C18.Model C18.Proofs C18.ProofsCrypt C18.Server C18.ProofsServer C18.ProofsMethod.
 Import ListNotations.
 Open Scope Z_scope.
 
@@ -48,6 +48,47 @@ Theorem decision_independent_of_hit_counters : forall mac rs rs' h h' c now t,
   snd (parse_token mac rs h c now t) = snd (parse_token mac rs' h' c now t).
 Proof. exact parse_token_history_irrelevant. Qed.
 Print Assumptions decision_independent_of_hit_counters.
+
+(* THE WHOLE REQUEST.  The request the middleware receives also has an HTTP method and any
+   number of other header fields ([hreq]: method, (name, value) list, clock, credential).  The
+   gate's decision, its answer AND the hit counters it leaves are the same for every method
+   (GET, POST, ..., OPTIONS, CONNECT, a made-up one) and every list of other headers (Origin,
+   Access-Control-Request-*, Upgrade, X-Forwarded-*, ...): nothing but the Authorization header
+   and the clock enters.  (Pinned.pinned_preflight_bypass_refuted is a gate for which this fails.) *)
+Theorem gate_independent_of_method_and_headers : forall mac h c q1 q2,
+  hq_now q1 = hq_now q2 -> hq_cred q1 = hq_cred q2 ->
+  authorize_req mac h c q1 = authorize_req mac h c q2.
+Proof. exact authorize_req_ignores. Qed.
+Print Assumptions gate_independent_of_method_and_headers.
+
+(* ... so [handler_runs_only_if_valid] holds of the whole request, for every method and header list *)
+Theorem handler_runs_only_if_valid_whatever_method_and_headers : forall mac h c q,
+  jran (snd (authorize_req mac h c q)) = true <->
+  exists t, hq_cred q = CToken t /\
+            is_hs (talg t) = true /\
+            (exists s, In s (secrets c) /\ tsig t = Some (mac (talg t) s (tinput t))) /\
+            TimeValid (hq_now q) t.
+Proof. exact authorize_req_ran. Qed.
+Print Assumptions handler_runs_only_if_valid_whatever_method_and_headers.
+
+(* ... and over every sequence of whole requests through one middleware instance: each is accepted iff
+   its credential is valid now, rejected with exactly the 401 answer otherwise; and two sequences
+   that differ only in methods and other headers get the same answers (and callback errors) *)
+Theorem gate_holds_over_histories_of_whole_requests : forall mac c reqs h,
+  Forall2 (HReqOk mac c) reqs (run_jwt_req mac h c reqs).
+Proof. exact run_jwt_req_ok. Qed.
+Print Assumptions gate_holds_over_histories_of_whole_requests.
+
+Theorem histories_independent_of_methods_and_headers : forall mac c reqs1 reqs2 h,
+  map hq_core reqs1 = map hq_core reqs2 ->
+  run_jwt_req mac h c reqs1 = run_jwt_req mac h c reqs2.
+Proof. exact run_jwt_req_ignores. Qed.
+Print Assumptions histories_independent_of_methods_and_headers.
+
+Example ex_preflight_shaped_request_without_token_is_rejected :
+  snd (authorize_req (fun _ k i => k * 1000 + i) [] (mkJcfg 1 (Some 2))
+                     (mkHreq m_options [(h_origin, 7); (h_acrm, 8)] 1000 CMissing)) = unauthorized.
+Proof. reflexivity. Qed.
 
 (* What the handler sees: exactly the claims of the token that are not one of
    aud/exp/jti/iat/iss/nbf/sub (a JSON null claim is stored as a nil context value, which
@@ -392,6 +433,48 @@ Theorem groups_are_isolated :
   serve ulfix mac rsa_dec cmac sha aes_ok E D b64enc b64dec limit (fst (bind key_ok gs2 [])) st q.
 Proof. exact group_isolation. Qed.
 Print Assumptions groups_are_isolated.
+
+(* EVERY METHOD, WITH OR WITHOUT rest.WithCors.  [serve_cors cors]: with the option the router is
+   wrapped by the CORS router, which answers every OPTIONS request with 204 before routing and turns
+   405 into 404; without it OPTIONS is a route method like any other.  In both configurations, for
+   every method: a handler runs only for credentials valid for its own group. *)
+Theorem handler_runs_only_for_own_group_credentials_any_method_cors_or_not :
+  forall ulfix key_ok mac rsa_dec cmac sha aes_ok E D b64enc b64dec cors limit gs st q st' o,
+  serve_cors ulfix mac rsa_dec cmac sha aes_ok E D b64enc b64dec cors limit (fst (bind key_ok gs [])) st q = (st', o) ->
+  o_ran (s_out o) = true ->
+  exists g, owner (q_route q) gs = Some g /\ s_route o = Some (q_route q) /\
+            ValidFor key_ok mac rsa_dec cmac sha g q.
+Proof. exact serve_cors_gate. Qed.
+Print Assumptions handler_runs_only_for_own_group_credentials_any_method_cors_or_not.
+
+Theorem server_gate_over_request_sequences_cors_or_not :
+  forall ulfix key_ok mac rsa_dec cmac sha aes_ok E D b64enc b64dec cors limit gs qs st,
+  Forall2 (GateOk key_ok mac rsa_dec cmac sha gs) qs
+          (serve_all_cors ulfix mac rsa_dec cmac sha aes_ok E D b64enc b64dec cors limit (fst (bind key_ok gs [])) st qs).
+Proof. exact serve_all_cors_gate. Qed.
+Print Assumptions server_gate_over_request_sequences_cors_or_not.
+
+(* the converse for the JWT option, for every method that reaches the router (all of them without the
+   CORS option; all but OPTIONS with it): an invalid token gets exactly 401, nothing runs *)
+Theorem invalid_token_gets_401_on_every_method :
+  forall ulfix key_ok mac rsa_dec cmac sha aes_ok E D b64enc b64dec cors limit gs st q st' o g jc,
+  snd (bind key_ok gs []) = true ->
+  (cors = true -> r_method (q_cs q) <> m_options) ->
+  owner (q_route q) gs = Some g -> g_jwt g = Some jc ->
+  ~ Accepts mac jc (q_jnow q) (q_cred q) ->
+  serve_cors ulfix mac rsa_dec cmac sha aes_ok E D b64enc b64dec cors limit (fst (bind key_ok gs [])) st q = (st', o) ->
+  s_out o = mkHout false 401 [] [] false /\ s_route o = None.
+Proof. exact serve_cors_jwt_rejects. Qed.
+Print Assumptions invalid_token_gets_401_on_every_method.
+
+(* behind the CORS router an OPTIONS request never reaches a route *)
+Theorem cors_router_answers_options_itself :
+  forall ulfix mac rsa_dec cmac sha aes_ok E D b64enc b64dec limit tab st q,
+  r_method (q_cs q) = m_options ->
+  serve_cors ulfix mac rsa_dec cmac sha aes_ok E D b64enc b64dec true limit tab st q =
+  (st, mkSout (mkHout false 204 [] [] false) None 0).
+Proof. exact cors_answers_options. Qed.
+Print Assumptions cors_router_answers_options_itself.
 
 (* non-vacuity: two strict signature groups, A with key file 1 under fingerprint 1, B with key
    file 2 under fingerprint 2, and a JWT group.  The same signed request (secret encrypted to
